@@ -1,5 +1,5 @@
 (* C17 — Encodings round-trip.  Property theorems only. *)
-Require Import DS.Base DS.Utf8 DS.Strings DS.Codec DS.CodecProof.
+Require Import DS.Base DS.Utf8 DS.Strings DS.Codec DS.CodecProof DS.Json DS.JsonProof.
 
 (* base64_decode (base64_encode bytes) = bytes, for every byte string (any length) *)
 Theorem C17_b64 : forall bs, bytes bs -> b64_decode (b64_encode bs) = Some bs.
@@ -37,3 +37,47 @@ Example C17_nonvacuous :
   b64_encode (utf8_encode [104; 233; 128512]) = [97;77;79;112;56;74;43;89;103;65;61;61] /\
   hex_encode 255 = [48;120;102;102].
 Proof. split; vm_compute; reflexivity. Qed.
+
+(* ---- JSON: json_parse --collection followed by json_encode --collection --------------------- *)
+(* For every parsed document j (unique keys per object; no string/number leaf is literally one of
+   the allocator's handle names) and every handle store built by put_handle: create_structure
+   followed by encode_from_state gives exactly the documented normalisation of j (scalars become
+   strings, nulls are dropped, a top-level null gives no value) and never runs out of fuel. *)
+Theorem C17_json : forall j st, store_wf st -> json_dom j ->
+  roundtrip (fuel_for j) j st = Some (normalise j).
+Proof. exact json_roundtrip. Qed.
+
+(* the same, spelled out on the two functions *)
+Theorem C17_json_ex : forall j st, store_wf st -> json_dom j ->
+  let (o, st') := create_structure j st in
+  match o with
+  | Some v => exists fuel, encode_from_state fuel (cells st') v = normalise j
+  | None => normalise j = None
+  end.
+Proof. exact json_roundtrip_ex. Qed.
+
+(* any recursion budget of at least two frames per nesting level is enough *)
+Theorem C17_json_fuel : forall j st fuel, store_wf st -> json_dom j -> (fuel_for j <= fuel)%nat ->
+  roundtrip fuel j st = Some (normalise j).
+Proof. exact encode_fuel_enough. Qed.
+
+(* from a fresh context (what the correspondence run executes) *)
+Theorem C17_json_fresh : forall j, json_dom j -> roundtrip_model j = Some (normalise j).
+Proof. exact roundtrip_model_spec. Qed.
+
+(* the store stays well formed and only grows, so the theorem applies to the next document too *)
+Theorem C17_json_store : forall j st, store_wf st -> json_dom j ->
+  store_wf (snd (create_structure j st)) /\ extends st (snd (create_structure j st)).
+Proof. exact create_structure_wf. Qed.
+
+(* non-vacuity: {"a":[1,null,{"b":null,"c":true},[]],"n":null,"s":"x"} is in the domain and comes back
+   as {"a":["1",{"c":"true"},[]],"s":"x"}; a top-level null gives no value *)
+Example C17_json_nonvacuous :
+  let j := JObj [([97], JArr [JNum [49]; JNull; JObj [([98], JNull); ([99], JBool true)]; JArr []]);
+                 ([110], JNull); ([115], JStr [120])] in
+  json_wfb j = true /\ no_handle_leafb j = true /\
+  roundtrip_model j = Some (Some (JObj [([97], JArr [JStr [49]; JObj [([99], JStr [116; 114; 117; 101])]; JArr []]);
+                                       ([115], JStr [120])])) /\
+  roundtrip_model JNull = Some None /\
+  no_handle_leafb (JArr [JStr (hname 0)]) = false.
+Proof. vm_compute. repeat split. Qed.
